@@ -56,7 +56,30 @@ def brute(m):
     return min(costs), max(costs)
 
 
-def judge(m, solver):
+def dp_minmax(m):
+    """minimum and maximum cost of a complete matching, by dynamic programming over column subsets (any shape)"""
+    r, c = len(m), len(m[0])
+    if r > c:
+        m = [[m[i][j] for i in range(r)] for j in range(c)]
+        r, c = c, r
+    out = []
+    for pick, worst in ((min, float('inf')), (max, float('-inf'))):
+        cur = {0: 0.0}
+        for i in range(r):
+            nxt = {}
+            for mask, val in cur.items():
+                for j in range(c):
+                    if not mask & (1 << j):
+                        k = mask | (1 << j)
+                        v = val + m[i][j]
+                        if k not in nxt or pick(v, nxt[k]) == v:
+                            nxt[k] = v
+            cur = nxt
+        out.append(pick(cur.values()))
+    return out[0], out[1]
+
+
+def judge(m, solver, oracle=None):
     """Run the real solver on matrix m and compare with the oracle.  Returns Result."""
     before = copy.deepcopy(m)
     r, c = len(m), len(m[0])
@@ -65,7 +88,7 @@ def judge(m, solver):
     except Exception as e:
         return Result('raised', True, viol('raises', 'compute raised %s: %s' % (type(e).__name__, e),
                                            'a matching', repr(e)))
-    lo, hi = brute(before)
+    lo, hi = (oracle or brute)(before)
     nontriv = abs(hi - lo) > 1e-9
     if m != before:
         return Result('mutated', nontriv, viol('input-modified', 'caller matrix modified', before, m))
@@ -136,6 +159,119 @@ class TwoOnes5(MatrixFamily):
             yield (5, 5, 'bin', idx)
 
 
+GENERATORS = [
+    ('(i+1)*(j+1)', lambda i, j, r, c: (i + 1) * (j + 1)),
+    ('(i+1)+(j+1)', lambda i, j, r, c: (i + 1) + (j + 1)),
+    ('|i-j|', lambda i, j, r, c: abs(i - j)),
+    ('(i-j)^2', lambda i, j, r, c: (i - j) ** 2),
+    ('max(i,j)', lambda i, j, r, c: max(i, j)),
+    ('min(i,j)', lambda i, j, r, c: min(i, j)),
+    ('(i*j) mod r', lambda i, j, r, c: (i * j) % r),
+    ('(i+2j) mod 5', lambda i, j, r, c: (i + 2 * j) % 5),
+    ('r*c-(i+1)*(j+1)', lambda i, j, r, c: r * c - (i + 1) * (j + 1)),
+    ('1-(r-i)*(c-j)/(r*c)', lambda i, j, r, c: 1 - (r - i) * (c - j) / float(r * c)),
+    ('0.1*(i+1)*(j+1)', lambda i, j, r, c: 0.1 * (i + 1) * (j + 1)),
+    ('(i+1)*(c-j)', lambda i, j, r, c: (i + 1) * (c - j)),
+    ('i^2+j', lambda i, j, r, c: i * i + j),
+    ('1/(i+j+1)', lambda i, j, r, c: 1.0 / (i + j + 1)),
+    ('1-1/(i+j+1)', lambda i, j, r, c: 1 - 1.0 / (i + j + 1)),
+    ('(3i+5j) mod 7 / 7', lambda i, j, r, c: ((3 * i + 5 * j) % 7) / 7.0),
+]
+TRANSFORMS = ['as is', 'rows reversed', 'columns reversed', 'both reversed']
+
+
+def structured(gi, r, c, ti):
+    f = GENERATORS[gi][1]
+    m = [[f(i, j, r, c) for j in range(c)] for i in range(r)]
+    if ti in (1, 3):
+        m = m[::-1]
+    if ti in (2, 3):
+        m = [row[::-1] for row in m]
+    return m
+
+
+class Structured(Family):
+    """larger matrices with regular structure (rank one, Toeplitz, modular, Hilbert): many dual adjustments per augmentation"""
+    name = 'structured_up_to_NxN'
+    timeout = 20.0
+    timeout_sig = 'non-termination'
+    rule = ('%d closed-form cost functions %s x every shape r x c with 1 <= r, c <= N (N = 8 quick, 10 thorough) x %s; oracle = '
+            'exact dynamic programme over column subsets' % (len(GENERATORS), [g[0] for g in GENERATORS], TRANSFORMS))
+
+    def setup(self, tier):
+        from mitxgraders.helpers.munkres import Munkres
+        self.Munkres = Munkres
+
+    def cases(self, tier):
+        n = 8 if tier == 'quick' else 10
+        for gi in range(len(GENERATORS)):
+            for r in range(1, n + 1):
+                for c in range(1, n + 1):
+                    for ti in range(4):
+                        yield (gi, r, c, ti)
+
+    def describe(self, case):
+        gi, r, c, ti = case
+        return {'cost(i,j)': GENERATORS[gi][0], 'shape': [r, c], 'transform': TRANSFORMS[ti], 'matrix': structured(*case)}
+
+    def check(self, case):
+        return judge(structured(*case), self.Munkres(), oracle=dp_minmax)
+
+
+class ProductPermutations(Family):
+    """every row and column permutation of the 5x5 product matrix"""
+    name = 'product5_permutations'
+    timeout = 20.0
+    timeout_sig = 'non-termination'
+    rule = ('the 5x5 matrix (i+1)*(j+1) (and its grade-like form 1-(5-i)(5-j)/25) under every row permutation x every column '
+            'permutation (thorough; quick: every row permutation x 6 column permutations); oracle = dynamic programme')
+
+    def setup(self, tier):
+        from mitxgraders.helpers.munkres import Munkres
+        self.Munkres = Munkres
+
+    def cases(self, tier):
+        perms = list(itertools.permutations(range(5)))
+        colperms = perms if tier == 'thorough' else [perms[k] for k in (0, 1, 23, 57, 88, 119)]
+        for form in (0, 1):
+            for rp in range(len(perms)):
+                for cp in colperms:
+                    yield (form, rp, perms.index(cp))
+
+    def matrix(self, case):
+        form, rp, cp = case
+        perms = list(itertools.permutations(range(5)))
+        base = structured(0 if form == 0 else 9, 5, 5, 0)
+        return [[base[i][j] for j in perms[cp]] for i in perms[rp]]
+
+    def describe(self, case):
+        return {'matrix': self.matrix(case)}
+
+    def check(self, case):
+        return judge(self.matrix(case), self.Munkres(), oracle=dp_minmax)
+
+
+class TwoFreeRows4(MatrixFamily):
+    """4x4 over {0,1,2}: two arbitrary rows, two rows with a single entry below the maximal cost (81*81*8*8 matrices)"""
+    def cases(self, tier):
+        if tier not in self.tiers:
+            return
+        rows = list(itertools.product(range(3), repeat=4))
+        single = [r for r in rows if sum(1 for x in r if x < 2) == 1]
+        for order in ((0, 1, 2, 3), (2, 3, 0, 1), (0, 2, 1, 3)):
+            for r1 in rows:
+                for r2 in rows:
+                    for r3 in single:
+                        for r4 in single:
+                            rr = [r1, r2, r3, r4]
+                            idx, mul = 0, 1
+                            for i in order:
+                                for d in rr[i]:
+                                    idx += d * mul
+                                    mul *= 3
+                            yield (4, 4, 'int012', idx)
+
+
 ALPHABET = [
     [[5]],
     [[3, 1, 2]],
@@ -203,6 +339,10 @@ def families(tier):
         MatrixFamily('sq3_grade3', [(3, 3)], 'grade3', tiers=('quick',)),
         MatrixFamily('rect23_grade5', [(2, 3), (3, 2), (2, 2)], 'grade5'),
         MatrixFamily('sq3_float_ties', [(3, 3)], 'float_ties', note=' (0.1+0.2 vs 0.3: near-tie floats)'),
+        TwoFreeRows4('sq4_int012_two_free_rows', [(4, 4)], 'int012',
+                     note=' restricted to two arbitrary rows + two rows with a single entry below 2, in three row arrangements'),
+        Structured(),
+        ProductPermutations(),
         SolverReuse(),
     ]
     if tier == 'thorough':
